@@ -6,6 +6,7 @@ from . import statics, satlayer, progress, layout, cli, accept
 def run(ctx):
     from . import lazyvars as _lazyvars
     _lazyvars.rule_lazy_variable_counter(ctx)
+    _lazyvars.rule_range_offset(ctx)
     statics.rule_framework_immutable(ctx)
     statics.rule_solvers_stateless(ctx)
     statics.rule_encoder_state_reset(ctx)
